@@ -401,7 +401,7 @@ class Report:
 
     def violation(self, rid, key, msg, where=""):
         if rid not in self.rules:  # reported while extracting the rule's instances, before its text was registered
-            self.rule(rid, "(rule text registered later)")
+            self.rule(rid, "anchors: every function / impl / table a rule of this property reads exists and has a shape the rule can read" if rid == "A0" else "(rule text registered later)")
         self.rules[rid]["violations"] += 1
         self.violations.append({"rule": rid, "key": key, "msg": msg, "where": where})
 
